@@ -182,6 +182,9 @@ where
                         capped.store(true, Ordering::Relaxed);
                     }
                 }
+                if crate::budget_spent() {
+                    capped.store(true, Ordering::Relaxed);
+                }
                 let mut g = queue.lock().unwrap();
                 // push in reverse so that the simplest alternative is popped first
                 for it in new_items.into_iter().rev() {
@@ -231,6 +234,9 @@ pub fn explore_seq(bound: usize, mut body: impl FnMut(&mut Chooser)) -> (u64, u6
     let mut stack: Vec<(Vec<u32>, Vec<u32>)> = vec![(vec![], vec![])];
     let (mut execs, mut maxp, mut nodes) = (0u64, 0u64, 1u64);
     while let Some((prefix, prefix_n)) = stack.pop() {
+        if crate::budget_spent() {
+            break;
+        }
         let plen = prefix.len();
         let mut ch = Chooser::new(prefix, prefix_n);
         body(&mut ch);
